@@ -27,6 +27,7 @@ func init() {
 			{ID: "C07-R2", Title: "arm/disarm pairing on every exit", Floor: 2, Run: c07r2},
 			{ID: "C07-R3", Title: "reset for new code covers the run state", Floor: 5, Run: c07r3},
 			{ID: "C07-R4", Title: "frames pushed above the current one are restored by defer (shared with C04-R4)", Floor: 3, Run: c04r4},
+			{ID: "C07-R6", Title: "run-scoped channels are closed once and cleared", Floor: 1, Run: func(c *core.Ctx) { closeOnce(c, "vm") }},
 			{ID: "C07-R5", Title: "VM-level caches are filled only after the fallible work succeeded", Floor: 1, Run: c07r5},
 		},
 	})
